@@ -56,8 +56,8 @@ def rand_tex3ds_odd(rng, names):
     if r < 0.4:      # supported colour format, multiple of 8 but not a power of two
         w, h = rng.choice([8, 24, 40]), rng.choice([8, 24, 16])
         fmt = rng.choice([0, 2, 3, 4, 5, 7, 8])
-    elif r < 0.7:    # not a multiple of the tile
-        w, h = rng.choice([4, 12, 20, 8]), rng.choice([4, 12, 8, 9])
+    elif r < 0.7:    # not a multiple of the tile (0 included: an empty payload)
+        w, h = rng.choice([4, 12, 20, 8, 0]), rng.choice([4, 12, 8, 9, 0])
         fmt = rng.choice([0, 2, 3, 4, 5, 7, 8])
     else:            # the other format ids
         w, h = rng.choice([8, 16, 12]), rng.choice([8, 16])
@@ -77,8 +77,10 @@ def rand_textpl(rng, maxside):
     r = rng.random()
     if r < 0.7:
         w, h = rng.choice([1, 2, 4, 8, 16, 32, 64]), rng.choice([1, 2, 4, 8, 16, 32, 64])
-    else:
+    elif r < 0.95:
         w, h = rng.randrange(1, 65), rng.randrange(1, 65)
+    else:
+        w, h = rng.choice([0, 3]), rng.choice([0, 5])        # empty images
     w, h = min(w, maxside), min(h, maxside)
     ncol = rng.choice([1, 2, 16, 255, 256, rng.randrange(1, 257)])
     n = texref.ci8_data_size(w, h)
